@@ -253,3 +253,44 @@ Example spine_nonvacuous :
              length (at_pos 0 st) = 3.
 Proof. vm_compute. eexists. split; reflexivity. Qed.
 Print Assumptions spine_nonvacuous.
+
+(* ------------------------------------------------------------------ 4. histories of constructor calls *)
+
+(* A session = constructor calls made one after another in one process
+   (C03.Run.Session; the harness passes the same productions object edited in
+   place, equal copies, objects sharing their lists, re-created objects).  In
+   the model a call has no access to earlier calls, so call k raises
+   GrammarIsRecursive exactly when ITS factorized grammar is left-recursive,
+   whatever was constructed before; that the implementation behaves like the
+   model on such histories is what the Session correspondence cases compare. *)
+Theorem session_exact : forall terminals calls k ug smart start inputs g sfxs,
+  nth_error calls k = Some (ug, smart, start, inputs) ->
+  existsb has_dunder terminals || has_dunder start = false ->
+  factorize ug terminals smart = Ok (g, sfxs) ->
+  part1_ok g (terminals ++ [END_TOKEN]) start ->
+  (nth_error (session_outcomes terminals calls) k = Some (Err GrammarRec) <-> left_recursive (grules g)) /\
+  (nth_error (session_outcomes terminals calls) k = Some (Ok tt) <-> ~ left_recursive (grules g)).
+Proof.
+  intros terminals calls k ug smart start inputs g sfxs Hk Hd Hf P1.
+  destruct (build_exact ug terminals smart start g sfxs Hd Hf P1) as [E1 E2].
+  unfold session_outcomes. rewrite (map_nth_error _ _ _ Hk). unfold ctor_outcome.
+  destruct (build ug terminals smart start) as [p|e] eqn:E.
+  - split; split; intro H.
+    + discriminate.
+    + apply E1 in H. discriminate.
+    + apply E2. exists p. reflexivity.
+    + reflexivity.
+  - split; split; intro H.
+    + inversion H; subst. apply E1. reflexivity.
+    + apply E1 in H. congruence.
+    + discriminate.
+    + apply E2 in H. destruct H as [p Hp]. discriminate.
+Qed.
+Print Assumptions session_exact.
+
+(* accepted, then the left-recursive variant, then the accepted grammar again *)
+Example session_nonvacuous :
+  session_outcomes xy [(harmless, false, [69%Z], []); (witness [65%Z], false, [69%Z], []); (harmless, false, [69%Z], [])]
+  = [Ok tt; Err GrammarRec; Ok tt].
+Proof. vm_compute. reflexivity. Qed.
+Print Assumptions session_nonvacuous.
